@@ -277,11 +277,21 @@ def _yaml():
     return y
 
 
+_PARSED = collections.OrderedDict()
+
+
 def _load_text(txt):
+    """the settings mapping of a file, parsed the way any YAML user would (memoised: a text is looked at many times)"""
     from ruamel.yaml import YAML
 
-    tree = YAML(typ="safe").load(txt)
-    return tree.get("settings", {}) if isinstance(tree, dict) else {}
+    hit = _PARSED.get(txt)
+    if hit is None:
+        tree = YAML(typ="safe").load(txt)
+        hit = tree.get("settings", {}) if isinstance(tree, dict) else {}
+        _PARSED[txt] = hit
+        if len(_PARSED) > 64:
+            _PARSED.popitem(last=False)
+    return dict(hit)
 
 
 def _dump_entries(pairs):
@@ -411,6 +421,7 @@ class World:
         self.inv = []
         self.exc = ""
         self.quarantined = 0
+        self.edited = False
 
 
 class Adapter:
@@ -431,6 +442,7 @@ class Adapter:
     # -- file plumbing ----------------------------------------------------------------------------------------
     def _set_text(self, w, txt):
         w.text = txt
+        w.edited = True
         if w.g.api == "file":
             self._n += 1
             w.path = os.path.join(self.wd, "f%d.yaml" % self._n)
@@ -583,6 +595,7 @@ class Adapter:
     def _write(self, w, a):
         cs = w.cs[a["o"]]
         style = a["style"]
+        w.edited = False
         if w.g.api == "file":
             self._n += 1
             path = os.path.join(self.wd, "f%d.yaml" % self._n)
@@ -809,7 +822,7 @@ def run_path(ad, g, steps, check_from=0):
 
 def _div(i, d, steps, e, g, observed):
     return {"step": i, "diverged_at": i + 1, "first_difference": d, "behaviour": [s["act"] for s in steps[: i + 1]], "action": e["act"],
-            "from": e["from"], "expected": e["to"], "observed": observed, "gamma": g.describe()}
+            "from": e["from"], "expected": e["to"], "observed": observed, "gamma": g.describe(), "steps": steps[: i + 1]}
 
 
 def label_of(e):
@@ -877,7 +890,9 @@ def replay_edges(rep, ad, lib, graph, label, rng, size, max_edges=None, rounds=1
                 continue
             g = Gamma(lib, rng, k=rng.randrange(1000), size=size, with_r=with_r, exclude=exclude)
             steps = [rp.strip(x) for x in pre] + [rp.strip(e)]
-            d = run_path(ad, g, steps, check_from=0)      # a divergence is attributed to the step where it first shows
+            d = run_path(ad, g, steps, check_from=len(pre))
+            if d:      # a divergence is attributed to the step where it first shows: run again comparing after every step
+                d = run_path(ad, g, steps, check_from=0) or d
             n += 1
             nt += e["_fk"] != e["_tk"]
             if d:
@@ -885,9 +900,515 @@ def replay_edges(rep, ad, lib, graph, label, rng, size, max_edges=None, rounds=1
                 at = steps[d["step"]]
                 rep.violation(key_of(d, at), "real Settings objects diverge from SettingsCase after %s: %s" % (json.dumps(at["act"]), d["first_difference"]),
                               dict(d, direction="replay"))
-                if ndiv >= 400:
+                if len(rep.violations) >= 60:
                     break
     rep.add_replay(label, n, nt,
                    "every edge (s,a,t) of TLC's state graph is executed as path(s);a on fresh armi Settings objects, each abstract "
                    "setting instantiated by a class of real settings; non-trivial = the edge changes the abstract state")
     return n
+
+
+# ============================================================================================================
+# part 5: the sweep -- every real setting x every admitted / refused value x every style, along paths of TLC's graph
+# ============================================================================================================
+def find_path(graph, acts):
+    """the edges of TLC's graph that realise the given action sequence from the initial state"""
+    (root,) = list(graph.roots) or [None]
+    k = root
+    out = []
+    for want in acts:
+        nxt = [e for e in graph.succ.get(k, ()) if all(e["act"].get(a) == b for a, b in want.items())]
+        if not nxt:
+            raise tlc.MachineryError("TLC's graph has no edge %s after %s" % (want, [x["act"] for x in out]))
+        out.append(rp.strip(nxt[0]))
+        k = nxt[0]["_tk"]
+    return out
+
+
+def A(n, **kw):
+    return dict(kw, n=n)
+
+
+def run_sweep(rep, ad, lib, graph, rng, thorough, quarantine):
+    """(a) round trip: all eligible settings at once, value index k, every style, both APIs;
+       (b) refusal on read: per setting and refused value, the edited short file is refused and nothing changes."""
+    n = nt = 0
+    kmax = max(len(v) for v in lib.vals.values())
+    ks = range(kmax) if thorough else range(min(kmax, 6))
+    seqs = []
+    for style in ("short", "medium", "full"):
+        w1 = [A("Write", o=1, style=style)] if style != "medium" else [A("Write", o=1, style="short"), A("New"), A("Read", o=2), A("Write", o=1, style="medium")]
+        tail = [A("New"), A("Read", o=2)] if style != "medium" else [A("Read", o=2)]
+        seqs.append((style, "ca", [A("Assign", o=1, s="Q", r="ca"), A("Assign", o=1, s="P", r="ca")] + w1 + tail))
+        seqs.append((style, "b", [A("Assign", o=1, s="V", r="a"), A("Assign", o=1, s="Q", r="b")] + w1 + tail))
+    paths = [(st, tk, find_path(graph, sq)) for st, tk, sq in seqs]
+    for k in ks:
+        for i, (style, tk, path) in enumerate(paths):
+            g = Gamma(lib, rng, k=k, everything=True, with_r=False, api=("file", "stream")[(k + i) % 2])
+            d = run_path(ad, g, path, check_from=0)
+            n += 1
+            nt += 1
+            if d:
+                at = path[d["step"]]
+                rep.violation(key_of(d, at, "sweep"), "round trip of every setting (value #%d, %s style, %s API) diverges after %s: %s" % (
+                    k, style, g.api, json.dumps(at["act"]), d["first_difference"]), dict(d, direction="sweep"))
+    if rep.samples is not None and paths:
+        rep.sample({"kind": "sweep path", "acts": [e["act"] for e in paths[0][2]], "expected_final": paths[0][2][-1]["to"]})
+    # (b) refusal on read, per setting
+    pq = find_path(graph, [A("Assign", o=1, s="Q", r="a"), A("Write", o=1, style="short"), A("SetBad", i=1), A("New"),
+                           A("Assign", o=2, s="Q", r="b"), A("Read", o=2)])
+    pp = find_path(graph, [A("Assign", o=1, s="P", r="a"), A("Write", o=1, style="short"), A("SetBad", i=1), A("New"), A("Read", o=2)])
+    nbad = 0
+    for m in lib.order:
+        if m == "versions" or not lib.vals[m] or not lib.bad[m]:
+            continue
+        nb = len(lib.bad[m]) if thorough else min(len(lib.bad[m]), 2)
+        for k in range(nb):
+            kk = k if thorough else rng.randrange(len(lib.bad[m]))
+            g = Gamma(lib, rng, k=kk, only={m}, with_r=False, api=("file", "stream")[k % 2])
+            path = pp if g.members["P"] else pq
+            d = run_path(ad, g, path, check_from=len(path) - 1)
+            nbad += 1
+            if d:
+                d = run_path(ad, g, path, check_from=0) or d
+                at = path[d["step"]]
+                rep.violation(key_of(d, at, "sweep") + (":" + m if ":" + m not in key_of(d, at, "sweep") else ""),
+                              "setting %s, refused value %r in a file: %s" % (m, g.raw(m, "x"), d["first_difference"]),
+                              dict(d, direction="sweep", setting=m))
+    rep.add_replay("sweep-roundtrip", n, nt, "the round-trip paths of TLC's graph with every eligible real setting in a class, value index k, per style and API")
+    rep.add_replay("sweep-read-refusal", nbad, nbad, "per real setting and refused value: configure, write short, put the refused value in the file, read into another object")
+    return n, nbad
+
+
+# values TLC classifies as admitted whose *use while loading* fails (kept out of the instantiations, reported here)
+HOOK_PROBES = (
+    ("userPlugins", {"t": "none", "v": ""}, "None"),
+    ("moduleVerbosity", {"t": "dict", "v": [[{"t": "str", "v": "a"}], [{"t": "int", "v": 1}]]}, "int-level"),
+)
+
+
+def run_hook_probes(rep, lib):
+    Settings = _settings_cls()
+    n = 0
+    for name, raw, tag in HOOK_PROBES:
+        cases = [c for c in lib.cases.get(name, ()) if _json(c["raw"]) == _json(raw)]
+        if not cases or cases[0]["r"] != "ok":
+            continue  # not admitted (any more): nothing to probe
+        n += 1
+        cs = Settings()
+        cs[name] = gs.from_tag(raw)
+        s = io.StringIO()
+        cs.writeToYamlStream(s, "short")
+        fn = os.path.join(common.workdir("c17probe"), "p.yaml")
+        with open(fn, "w") as f:
+            f.write(s.getvalue())
+        for api in ("string", "file"):
+            cs2 = Settings()
+            try:
+                cs2.loadFromString(s.getvalue()) if api == "string" else cs2.loadFromInputFile(fn)
+                if not gs.same(_value(cs2, name), gs.plain_of_tag(cases[0]["out"])):
+                    raise AssertionError("read back %r" % (_value(cs2, name),))
+            except Exception as ex:  # noqa: BLE001
+                rep.violation("hook:%s:%s" % (name, tag),
+                              "%s = %r is admitted by the setting's schema (TLC and the real assignment agree) and written, but reading the file back fails: %s: %s"
+                              % (name, gs.from_tag(raw), type(ex).__name__, str(ex)[:200]),
+                              {"direction": "probe", "setting": name, "file": s.getvalue(), "api": api})
+                break
+    return n
+
+
+# ============================================================================================================
+# part 6: code -> spec: random histories on real objects, abstracted, validated by SettingsCase_trace
+# ============================================================================================================
+MAXOBJ_TRACE = 4
+
+
+class Abstractor:
+    """real world -> abstract state (the St record of SettingsCase_mc) under an injective instantiation"""
+
+    def __init__(self, ad):
+        self.ad = ad
+
+    def val(self, w):
+        g = w.g
+        out = []
+        for o in sorted(w.cs):
+            objs = dict(w.cs[o].items())
+            rec = {}
+            for a in ABS_NAMES:
+                if not g.members[a]:
+                    continue
+                toks = ("d",) if a == "Z" else ("d", "a") if a == "V" else ("d", "a", "b")
+                fit = [t for t in toks if all(gs.same(g.tok[m][t]["stored"], _value(None, m, objs)) for m in g.members[a])]
+                rec[a] = fit[0] if len(fit) == 1 else "?"
+            out.append(rec)
+        return out
+
+    def file(self, w, style):
+        g = w.g
+        if w.text is None:
+            return {"es": [], "style": "none"}
+        content = _load_text(w.text)
+        seen, es = [], []
+        for k in content:
+            ab = self.ad._abstract_of(w, k)
+            if ab not in seen:
+                seen.append(ab)
+        if style != "hand" and not w.edited:
+            # a file as the writer left it is sorted by real name; the specification lists its entries in the writer's
+            # order of the abstract names (an order only matters once a user has arranged the file: edits, hand files)
+            seen.sort(key=lambda x: "PQRVZ".index(x) if x in "PQRVZ" else 9)
+        for ab in seen:
+            names = g.file_names(ab)
+            members = g.members["P"] if ab == "Po" else names
+            present = [(f, m) for f, m in zip(names, members) if f in content]
+            if len(present) != len(names):
+                es.append({"n": ab, "t": "?partial"})
+                continue
+            if ab == "Zz":
+                es.append({"n": ab, "t": "a"})
+                continue
+            fit = []
+            for t in ("d", "a", "b"):
+                if all(t in g.tok[m] and (gs.same(g.tok[m][t]["dump"], self._fv(f, content)) or (style == "hand" and gs.plain(g.raw(m, t)) == self._fv(f, content)))
+                       for f, m in present):
+                    fit.append(t)
+            if len(fit) == 1:
+                es.append({"n": ab, "t": fit[0]})
+            elif any(g.has_bad(m) and gs.plain(g.raw(m, "x")) == self._fv(f, content) for f, m in present):
+                es.append({"n": ab, "t": "x"})
+            else:
+                es.append({"n": ab, "t": "?"})
+        return {"es": es, "style": style}
+
+    @staticmethod
+    def _fv(f, content):
+        v = gs.plain(content[f])
+        if f == "versions" and isinstance(v, dict):
+            v = {a: b for a, b in v.items() if a != "armi"}
+        return v
+
+    def state(self, w, style, act, prev=None):
+        """the abstract state after `act`.  What armi produced (values, written files, errors, the reader's invalid list,
+        sharing) is abstracted from the real objects; a file the harness itself authored (hand-written, edited) is
+        described by the entries it was asked to author."""
+        g = w.g
+        n = act["n"]
+        if n == "Write" or prev is None:
+            f = self.file(w, style)
+        elif n == "HandWrite":
+            f = {"es": [dict(e) for e in act["es"]], "style": "hand"}
+        elif n in ("SetBad", "SetOld", "AddUnknown"):
+            es = [dict(e) for e in prev["file"]["es"]]
+            if n == "SetBad":
+                es[act["i"] - 1]["t"] = "x"
+            elif n == "SetOld":
+                es[act["i"] - 1]["n"] = "Po"
+            else:
+                es.append({"n": "Zz", "t": "a"})
+            f = {"es": es, "style": prev["file"]["style"]}
+        else:
+            f = prev["file"]
+        inv = list(prev["inv"]) if prev is not None else []
+        if n == "Read":
+            inv = []
+            if w.err == "":
+                content = set(_load_text(w.text).keys())
+                for ab in ("Po", "Zz"):
+                    names = [x for x in g.file_names(ab) if x in content]
+                    hit = [x for x in names if x in w.inv]
+                    if names and len(hit) == len(names):
+                        inv.append(ab)
+                    elif hit:
+                        inv.append(ab + "?")
+                if any(self.ad._abstract_of(w, x) not in ("Po", "Zz") for x in w.inv):
+                    inv.append("current?")
+        return {"n": len(w.cs), "val": self.val(w), "file": f, "err": w.err if w.err in ("", "Invalid", "Nonexistent") else "?" + w.err[:40],
+                "inv": inv, "shared": self.ad._shared(w)}
+
+
+def trace_driver(ad, lib, hand_files, ntraces, nev, seed, exclude):
+    rng = random.Random(seed * 7919 + 17)
+    ab = Abstractor(ad)
+    traces = []
+    for t in range(ntraces):
+        g = Gamma(lib, rng, k=rng.randrange(1000), size=rng.choice((2, 5, 12)), injective=True, exclude=exclude)
+        w = ad.build(g)
+        style = "none"
+        st = ab.state(w, style, {"n": "Init"})
+        ev = []
+        for _ in range(nev):
+            a = _random_action(rng, st, hand_files, g)
+            if a is None:
+                continue
+            act = dict(a, _from_es=st["file"]["es"])
+            try:
+                ad.apply(w, act)
+                if a["n"] == "Write":
+                    style = a["style"]
+                elif a["n"] == "HandWrite":
+                    style = "hand"
+                st = ab.state(w, style, a, st)
+                ev.append({"a": a, "post": st})
+            except tlc.MachineryError:
+                raise
+            except Exception as ex:  # noqa: BLE001  an escaping exception ends the history; TLC rejects the event
+                ev.append({"a": a, "post": {"exception": "%s: %s" % (type(ex).__name__, str(ex)[:200])}})
+                break
+            if any("?" in json.dumps(x) for x in (st["val"], st["file"], st["inv"])):
+                break  # not abstractable any more: TLC rejects this event; nothing after it would be meaningful
+        traces.append({"id": "t%d" % t, "ev": ev, "gamma": g.describe()})
+    return traces
+
+
+def _random_action(rng, st, hand_files, g):
+    n = st["n"]
+    names = [a for a in ("P", "Q", "R", "V", "Z") if g.members[a]]
+    es = st["file"]["es"]
+    o = rng.randrange(1, n + 1)
+    kind = rng.choice(["Assign", "Assign", "Assign", "AssignBad", "AssignUnknown", "GetSet", "Revert", "Write", "Write", "Read", "Read",
+                       "SetBad", "SetOld", "AddUnknown", "HandWrite", "New", "Modified", "ModifiedBad", "Duplicate"])
+
+    def raws(s):
+        return ["d"] if s == "Z" else ["d", "a", "ca"] if s == "V" else ["d", "a", "b", "ca"]
+
+    if kind in ("Assign", "Modified"):
+        s = rng.choice(names)
+        a = {"n": kind, "o": o, "s": s, "r": rng.choice(raws(s))}
+        if kind == "Modified":
+            if n >= MAXOBJ_TRACE:
+                return None
+            a["id"] = n + 1
+        return a
+    if kind in ("AssignBad", "ModifiedBad"):
+        if kind == "ModifiedBad" and n >= MAXOBJ_TRACE:
+            return None
+        s = rng.choice(names)
+        if not any(g.has_bad(m) for m in g.members[s]):
+            return None
+        return {"n": kind, "o": o, "s": s, "r": "x"}
+    if kind == "AssignUnknown":
+        return {"n": kind, "o": o, "nm": rng.choice(["Po", "Zz"])}
+    if kind == "GetSet":
+        s = rng.choice(names)
+        r = rng.choice(raws(s) + ["x"])
+        if r == "x" and not any(g.has_bad(m) for m in g.members[s]):
+            return None
+        return {"n": kind, "o": o, "s": s, "r": r}
+    if kind == "Revert":
+        return {"n": kind, "o": o}
+    if kind == "Write":
+        style = rng.choice(["short", "full", "medium"])
+        if style == "medium" and st["file"]["style"] == "none":
+            style = "short"
+        return {"n": kind, "o": o, "style": style}
+    if kind == "Read":
+        return {"n": kind, "o": o} if st["file"]["style"] != "none" else None
+    if kind == "SetBad":
+        cand = [i + 1 for i, e in enumerate(es) if e["t"] in ("d", "a", "b", "ca") and e["n"] != "Zz"
+                and any(g.has_bad(m) for m in (g.members["P"] if e["n"] == "Po" else g.members[e["n"]]))]
+        return {"n": kind, "i": rng.choice(cand)} if cand else None
+    if kind == "SetOld":
+        cand = [i + 1 for i, e in enumerate(es) if e["n"] == "P"]
+        return {"n": kind, "i": cand[0]} if cand and not any(e["n"] == "Po" for e in es) else None
+    if kind == "AddUnknown":
+        return {"n": kind} if st["file"]["style"] != "none" and not any(e["n"] == "Zz" for e in es) else None
+    if kind == "HandWrite":
+        ok = [h for h in hand_files if all(g.members[e["n"] if e["n"] not in ("Po", "Zz") else "P"] or e["n"] == "Zz" for e in h)]
+        return {"n": kind, "es": rng.choice(ok)} if ok else None
+    if kind == "New":
+        return {"n": kind, "id": n + 1} if n < MAXOBJ_TRACE else None
+    if kind == "Duplicate":
+        return {"n": kind, "o": o, "kind": rng.choice(["duplicate", "deepcopy", "pickle"]), "id": n + 1} if n < MAXOBJ_TRACE else None
+    return None
+
+
+# ============================================================================================================
+# part 7: run / replay / selftest
+# ============================================================================================================
+SCHEMA_ACTIONS = ()
+CASE_ACTIONS = ("New", "DoAssign", "DoAssignBad", "DoAssignUnknown", "DoGetSet", "DoRevert", "DoWrite", "DoSetBad", "DoSetOld",
+                "AddUnknown", "DoHandWrite", "DoRead", "DoModified", "DoModifiedBad", "DoDuplicate")
+_SELFTEST = False
+
+
+def _hand_files(graph):
+    hand = []
+    for e in graph.edges:
+        if e["act"]["n"] == "HandWrite" and e["act"]["es"] not in hand:
+            hand.append(e["act"]["es"])
+    return hand
+
+
+def run(rep, tier, seed):
+    from concurrent.futures import ThreadPoolExecutor
+
+    thorough = tier == "thorough"
+    sfx = "_thorough" if thorough else ""
+    for m in ("SettingSchema_mc", "SettingSchema_cat", "SettingsCase_mc", "SettingsCase_trace"):
+        tlc.sany(m, MODDIR)
+    rep.exhaustive = True
+    rng = random.Random(seed)
+
+    # 1. TLC in the background while the real code is exercised: the emission runs and the catalog run (one worker each),
+    #    and the exhaustive runs one after the other (four workers)
+    pool = ThreadPoolExecutor(max_workers=5)
+    f_cat = pool.submit(schema_cases)
+    f_io = pool.submit(emit_graph, "SettingsCase_emit_io%s.cfg" % sfx)
+    f_copy = pool.submit(emit_graph, "SettingsCase_emit_copy%s.cfg" % sfx)
+
+    def exhaustive():
+        out = [("SettingSchema_mc", "SettingSchema_mc.cfg", tlc.run("SettingSchema_mc", "SettingSchema_mc.cfg", MODDIR, workers=2, want_prints=False, timeout=3000))]
+        for cfg in ("SettingsCase_mc%s.cfg" % sfx, "SettingsCase_io%s.cfg" % sfx, "SettingsCase_copy%s.cfg" % sfx):
+            out.append(("SettingsCase_mc", cfg, tlc.run("SettingsCase_mc", cfg, MODDIR, workers=8 if thorough else 4, want_prints=False, timeout=3000)))
+        return out
+
+    f_exh = pool.submit(exhaustive) if not _SELFTEST else None
+
+    # 2. SettingSchema over the catalog; every case on the real code; data laws; load hooks
+    lib, cres, skipped = f_cat.result()
+    rep.add_tlc("cases:SettingSchema_cat.cfg", cres, {"settings": len(lib.order), "universe+extras per setting": "~95"})
+    if skipped:
+        rep.note("settings whose declaration could not be expressed (skipped, not judged): %s" % skipped)
+    n_ok, n_bad, n_unm = run_cases(rep, lib)
+    if n_ok < 1000 or n_bad < 1000:
+        raise tlc.MachineryError("too few schema cases executed (%d accepted, %d refused)" % (n_ok, n_bad))
+    rep.add_replay("schema-cases", n_ok + n_bad, n_ok + n_bad,
+                   "one real assignment cs[name] = value per case TLC printed from SettingSchema_cat (verdict, stored value, dump, previous "
+                   "value kept on refusal); %d cases outside the string/repr tables are skipped as unmodelled" % n_unm)
+    rep.extra["schema_cases"] = {"accepted": n_ok, "refused": n_bad, "unmodelled_skipped": n_unm, "settings": len(lib.order),
+                                 "plugin_settings_added_by_harness": list(gs.PLUGIN_SETTINGS)}
+    c0 = next(c for c in lib.cases["nCycles"] if c["r"] == "ok" and _json(c["raw"]) != _json(c["out"]))
+    rep.sample({"kind": "schema case", "case": c0})
+    quarantine = run_laws(rep, lib)
+    run_hook_probes(rep, lib)
+    ad = Adapter(lib, quarantine)
+
+    # 3. spec -> code: edges of the two plans, the sweep
+    (ires, gio), (cres2, gcopy) = f_io.result(), f_copy.result()
+    rep.add_tlc("edges:SettingsCase_emit_io%s.cfg" % sfx, ires)
+    rep.add_tlc("edges:SettingsCase_emit_copy%s.cfg" % sfx, cres2)
+    if len(gio.edges) < 500 or len(gcopy.edges) < 500:
+        raise tlc.MachineryError("emission produced too few edges (%d, %d)" % (len(gio.edges), len(gcopy.edges)))
+    sizes = (4, 8) if not thorough else (6, 14)
+    n1 = replay_edges(rep, ad, lib, gio, "io-edges", rng, sizes[0], max_edges=None if thorough else (200 if _SELFTEST else 400), exclude=quarantine)
+    n2 = replay_edges(rep, ad, lib, gcopy, "copy-edges", rng, sizes[1], max_edges=None if thorough else (300 if _SELFTEST else 700), exclude=quarantine)
+    if not n1 or not n2:
+        raise tlc.MachineryError("no edges replayed")
+    e = gio.edges[len(gio.edges) // 2]
+    rep.sample({"kind": "edge", "path": [s["act"] for s in gio.path[e["_fk"]]], "act": e["act"], "expected": rp.strip(e)["to"]})
+    run_sweep(rep, ad, lib, gio, rng, thorough and not _SELFTEST, quarantine)
+
+    # 4. code -> spec: random histories
+    ntr, nev = (400, 40) if thorough else ((30, 18) if _SELFTEST else (50, 20))
+    traces = trace_driver(ad, lib, _hand_files(gio), ntr, nev, seed, quarantine)
+    bad, stats = tracecheck.validate("SettingsCase_trace", "SettingsCase_trace.cfg", MODDIR, traces, timeout=3000)
+    rep.add_tlc("trace-validation", stats["tlc"])
+    rep.add_traces("random-settings-histories", len(traces), sum(len(t["ev"]) for t in traces),
+                   "seeded random histories (assign, refuse, write in three styles through both APIs, edit, hand-write, read, copy four "
+                   "ways, revert) on up to 4 real Settings objects under injective instantiations; every event's whole abstracted "
+                   "post-state must be a step of SettingsCase")
+    rep.sample({"kind": "trace", "id": traces[0]["id"], "gamma": traces[0]["gamma"], "events": traces[0]["ev"][:2]})
+    for b in bad:
+        ev = b["trace"]["ev"]
+        k = b["matched"]
+        nxt = ev[k] if k < len(ev) else {}
+        lab = nxt.get("a", {}).get("n", b.get("invariant", "?"))
+        if lab == "Read" and k > 0 and any(x["n"] == "Po" for x in ev[k - 1]["post"].get("file", {}).get("es", [])):
+            lab = "ReadOld"
+        rep.violation("trace:%s" % lab, "recorded history is not a behaviour of SettingsCase at event %d (%s): specification expects %s, observed %s" % (
+            k + 1, json.dumps(nxt.get("a")), json.dumps(b.get("mismatch", {}).get("expected", ""))[:500], json.dumps(nxt.get("post"))[:500]),
+            {"direction": "trace", "trace": b["trace"], "matched": k, "tlc": b.get("tlc")})
+
+    # 5. verdicts of the exhaustive runs, non-vacuity
+    taken = collections.Counter()
+    exh = f_exh.result() if f_exh is not None else []
+    for mod, cfg, res in exh:
+        rep.add_tlc("exhaustive:" + cfg, res)
+        if res.violation:
+            rep.violation("tlc:%s:%s" % (mod, res.violation["name"]), "TLC: %s violated in %s (%s)" % (res.violation["name"], mod, cfg),
+                          {"direction": "tlc", "trace": res.violation["trace"][:20000]})
+        if mod == "SettingsCase_mc":
+            for a in CASE_ACTIONS:
+                taken[a] += res.coverage.get(a, (0, 0))[1] + res.coverage.get(a[2:] if a.startswith("Do") else a + "_", (0, 0))[1]
+        elif res.distinct < 300:
+            raise tlc.MachineryError("SettingSchema_mc explored only %d states" % res.distinct)
+    pool.shutdown()
+    if exh:
+        never = [a for a in CASE_ACTIONS if not taken[a]]
+        if never:
+            raise tlc.MachineryError("vacuous: actions never taken in the exhaustive runs: %s" % never)
+    rep.extra["tolerances"] = "none: values are compared exactly (type-strict; containers by content)"
+    rep.assume(
+        "values are YAML data: None, bool, int, float (finite), str, list, dict with string keys; armi Flags only for flag-list settings",
+        "type violation = the coercion the schema prescribes is undefined for the value (armi coerces on purpose: 3.7 -> 3 for an int setting, anything -> bool/str)",
+        "option-list violation = enforced options (Setting.enforcedOptions); for settings that list options without enforcing them only listed values are used as valid user values",
+        "`versions`: the entry `armi` is the writer's stamp, compared separately; values of `versions` are taken modulo that entry",
+        "settings acted on while a file loads: userPlugins is kept at [] (a load imports what it names), moduleVerbosity values are level names / numeric strings; "
+        "the schema-admitted values excluded by this (userPlugins None, an int level) are probed separately (hook:* keys)",
+        "reading overlays the object: equality of every setting is claimed for a fresh reading object and for full-style files (SettingsCase!RoundTripFresh/RoundTripFull, ReadIsOverlay)",
+        "a setting whose default its own schema refuses (SettingSchema!DefaultAdmitted false; reported as default-rejected:<name>) is kept in the untouched class and its default entry is "
+        "taken out of full-style texts before they are read, so that the remaining checks stay meaningful",
+        "four settings (a flag list, active/expired/future old names, enforced options extended by Option/Default, a non-empty float-list default) are contributed by a plugin the harness "
+        "registers through armi's plugin hook defineSettings, because no built-in plugin uses those classes",
+    )
+
+
+def _gamma_from(lib, desc):
+    g = Gamma(lib, random.Random(0), k=desc["k"], api=desc["api"], only=set(desc["P"]) | set(desc["Q"]) | set(desc["R"]), size=10 ** 6,
+              with_r=bool(desc["R"]))
+    # the recorded classes, in the recorded order
+    for a in ("P", "Q", "R"):
+        g.members[a] = list(desc[a])
+    used = set(desc["P"]) | set(desc["Q"]) | set(desc["R"]) | {"versions"}
+    g.members["Z"] = [n for n in lib.order if n not in used]
+    g.cls = {m: a for a, ms in g.members.items() for m in ms}
+    for a in ("P", "Q", "R"):
+        for m in g.members[a]:
+            g.tok[m] = g._tokens(m, g.k)
+    for m in g.members["Z"]:
+        g.tok[m] = {"d": g._default_tok(m), "x": g._bad(m, g.k)}
+    g.old = {m: lib.active_old(m)[g.k % len(lib.active_old(m))] for m in g.members["P"]}
+    return g
+
+
+def replay(payload):
+    lib, _res, _sk = schema_cases()
+    d = payload.get("direction")
+    if d in ("replay", "sweep"):
+        rep_ = _NullRep()
+        quarantine = run_laws(rep_, lib)
+        ad = Adapter(lib, quarantine)
+        g = _gamma_from(lib, payload["gamma"])
+        out = run_path(ad, g, payload["steps"], check_from=0)
+        print(json.dumps(out, indent=1, default=str) if out else "no divergence: behaviour conforms")
+        return 1 if out else 0
+    if d == "case":
+        Settings = _settings_cls()
+        cs = Settings()
+        c = payload.get("case")
+        if c:
+            try:
+                cs[c["s"]] = gs.from_tag(c["raw"])
+                print("cs[%r] = %r accepted; stored %r; specification: %s %r" % (c["s"], gs.from_tag(c["raw"]), _value(cs, c["s"]), c["r"], gs.plain_of_tag(c["out"])))
+            except Exception as ex:  # noqa: BLE001
+                print("cs[%r] = %r refused with %s; specification: %s" % (c["s"], gs.from_tag(c["raw"]), type(ex).__name__, c["r"]))
+        return 1
+    if d in ("law", "probe"):
+        Settings = _settings_cls()
+        try:
+            Settings().loadFromString(payload["file"])
+            print("the file is read without error")
+            return 0
+        except Exception as ex:  # noqa: BLE001
+            print("reading\n%s\nraises %s: %s" % (payload["file"], type(ex).__name__, ex))
+            return 1
+    print("replay of direction=%s: see payload (TLC trace / recorded trace)" % d)
+    return 0
+
+
+class _NullRep:
+    samples = None
+
+    def violation(self, *a, **k):
+        pass
